@@ -208,6 +208,20 @@ def gen_lp_fast(an: ast.AST) -> str:
             "    multiplier 1 (`Generated.walkStepG`'s fixed point) -/",
             "def extractAllG (general : Expr → Except Err (List Rat)) (e : Expr) (V : List String) : Except Err (List Rat) :=",
             "  " + f.block(ea.body, {}, "  ")]
+    # the two public single-quantity entry points: linearity guard, then the recursive walker
+    impls = {"_extract_coefficient_impl(expr, var)": "coeffImpl e", "_extract_constant_impl(expr)": "constImpl e"}
+    for name, lean, doc in (("extract_linear_coefficient", "extractLinearCoefficientG", "extract_linear_coefficient(expr, var)"),
+                            ("extract_constant_term", "extractConstantTermG", "extract_constant_term(expr)")):
+        b = _strip(find_func(an, name).body)
+        if len(b) != 2 or not (isinstance(b[0], ast.If) and not b[0].orelse and _u(b[0].test) == "not is_linear(expr)"
+                               and len(_strip(b[0].body)) == 1 and isinstance(b[0].body[0], ast.Raise)
+                               and _u(b[0].body[0].exc).startswith("NonLinearError(")) \
+                or not (isinstance(b[1], ast.Return) and _u(b[1].value) in impls):
+            raise TranslateError(f"{name}: body is not `if not is_linear(expr): raise NonLinearError(…)` + `return <walker>(…)`: "
+                                 f"{[_u(x)[:60] for x in b]}")
+        out += ["", f"/-- `{doc}`: NonLinearError unless `is_linear(expr)`, then the recursive walker it names -/",
+                f"def {lean} (isLin : Expr → Bool) (coeffImpl constImpl : Expr → Except Err Rat) (e : Expr) : Except Err Rat :=",
+                f"  if !isLin e then .error .nonLinear else {impls[_u(b[1].value)]}"]
     return "\n".join(out) + "\n"
 
 
